@@ -38,8 +38,14 @@ check(
     "symbolic execution (CrossHair+z3) of both writers' and both handlers' Python halves on the same symbolic input, differential comparison",
     "DESIGN.md §5 C08",
 )
+check(
+    "C04",
+    "Bounded, solver-decided at the dictionary level: for the same instance builders as C01 (minus untyped-primitive models, which the property excludes) CrossHair executes the real DictEncoder.encode and DictDecoder.decode and proves decode(encode(obj)) == obj and that the encoded form contains only JSON-native values, for the default and the None-filtering factory and for object and list documents; focus values (ints, strings of <= 2 arbitrary code points, bools) are symbolic, the rest are selectors.",
+    "Trusted: z3, CrossHair, chmodels. Outside: json.dump/json.load themselves (C; contract: identity on JSON-native values, which the check asserts of the encoded form), models outside the pool. XmlContext.get_subclasses(object) is stubbed to walk the model pool.",
+    "symbolic execution (CrossHair+z3) of the real dictionary encoder and decoder over symbolic instances",
+    "DESIGN.md §5 C04",
+)
 for _p, _r in {
-    "C04": "check not built yet",
     "C07": "check not built yet", "C08": "check not built yet", "C09": "check not built yet", "C10": "check not built yet",
     "C11": "check not built yet", "C12": "check not built yet", "C14": "check not built yet", "C15": "check not built yet",
     "C18": "check not built yet", "C19": "check not built yet",
